@@ -8,8 +8,10 @@
    only account whose balance goes down is the owner DID's payment address (and then the
    submitter is bound to the owner or acts for the gateway the request names) or the
    sponsor's own address (and then the sponsor itself submitted it).
-   Refuted for renewals (finding D20, renew_payer_refuted): the payer of a renewal is the
-   payment address of the DID that placed the model's latest order. *)
+   Renewals: the payer used to be the payment address of the DID that placed the model's latest
+   order (finding D20, repaired in /repo by the fix commit "a renewal order belongs to the
+   model owner who signed it"); renew_payer_witness shows the repaired behaviour on the state
+   that refuted the clause; the general clause is monitored (authz.renew_payer). *)
 From SaoVerif Require Import Base.Prelude Base.Ints Base.Dec Model.Did Model.Types Model.Monad Model.Bank Model.Select Model.Node Model.Storage Model.Sao Model.Hooks Model.App Model.Spec Proofs.Authz.
 From RecordUpdate Require Import RecordUpdate.
 Import RecordSetNotations.
@@ -42,7 +44,13 @@ Theorem C10_store_payer : forall cx s m s' d a, step cx s (OStore m) = (s', OutT
 Proof. exact store_payer. Qed.
 Print Assumptions C10_store_payer.
 
-Theorem C10_renew_payer_refuted : exists cx s m s' d a,
-  step cx s (ORenew m) = (s', OutTx COk d) /\ balance s' a < balance s a /\ pay_addr s (rn_owner m) <> Some a.
-Proof. exact renew_payer_refuted. Qed.
-Print Assumptions C10_renew_payer_refuted.
+Theorem C10_renew_payer_witness :
+  let s := Witness.s1 in let m := Witness.rn1 in let s' := fst (step Witness.cx s (ORenew m)) in
+  sig_sane (rn_owner m) (rn_sig m) /\ verify_sig s (rn_owner m) (rn_sig m) = Some (rn_owner m) /\
+  snd (step Witness.cx s (ORenew m)) = OutTx COk "" /\
+  pay_addr s (rn_owner m) = Some "ownerAddr" /\
+  balance s "ownerAddr" = 100 /\ balance s' "ownerAddr" = 99 /\
+  balance s "granteeAddr" = 100 /\ balance s' "granteeAddr" = 100 /\
+  (exists em', metas s' !! "11111111-1111-1111-1111-111111111111" = Some em' /\ m_orders em' = [0; 1] /\ m_order em' = 1).
+Proof. exact renew_payer_witness. Qed.
+Print Assumptions C10_renew_payer_witness.
